@@ -404,3 +404,39 @@ fn main() {
         let _ = h.join();
     }
 }
+
+
+/// CBOR encoding of [[node rows], [edge rows]] (integers only) in which the header of the lists named in `announce`
+/// claims 2^64-1 elements.
+pub fn cbor_announce(outer: &[serde_json::Value], announce: &serde_json::Value) -> Vec<u8> {
+    fn head(out: &mut Vec<u8>, major: u8, n: u64) {
+        if n < 24 { out.push((major << 5) | n as u8); }
+        else if n < 256 { out.push((major << 5) | 24); out.push(n as u8); }
+        else if n < 65536 { out.push((major << 5) | 25); out.extend_from_slice(&(n as u16).to_be_bytes()); }
+        else if n < (1u64 << 32) { out.push((major << 5) | 26); out.extend_from_slice(&(n as u32).to_be_bytes()); }
+        else { out.push((major << 5) | 27); out.extend_from_slice(&n.to_be_bytes()); }
+    }
+    fn val(out: &mut Vec<u8>, v: &serde_json::Value) {
+        match v {
+            serde_json::Value::Array(a) => { head(out, 4, a.len() as u64); for x in a { val(out, x); } }
+            serde_json::Value::Number(n) => {
+                let i = n.as_i64().unwrap();
+                if i >= 0 { head(out, 0, i as u64) } else { head(out, 1, (-1 - i) as u64) }
+            }
+            serde_json::Value::String(s) => { head(out, 3, s.len() as u64); out.extend_from_slice(s.as_bytes()); }
+            x => panic!("cbor_announce: {}", x),
+        }
+    }
+    let mut out = vec![];
+    head(&mut out, 4, outer.len() as u64);
+    for (i, el) in outer.iter().enumerate() {
+        let name = if i == 0 { "nodes" } else { "edges" };
+        if announce.get(name).and_then(|x| x.as_str()) == Some("huge") && el.is_array() {
+            head(&mut out, 4, u64::MAX);
+            for x in el.as_array().unwrap() { val(&mut out, x); }
+        } else {
+            val(&mut out, el);
+        }
+    }
+    out
+}
